@@ -41,7 +41,7 @@ CREATE TABLE IF NOT EXISTS snapshots (
     sequence INTEGER NOT NULL,
     state TEXT NOT NULL,
     state_hash VARCHAR(64),
-    created_at TEXT DEFAULT (datetime('now', 'utc')),
+    created_at TEXT DEFAULT (datetime('now')),
     UNIQUE(entity_type, entity_id, version)
 );
 
@@ -56,7 +56,7 @@ CREATE TABLE IF NOT EXISTS event_subscriptions (
     entity_filter TEXT,
     last_sequence INTEGER DEFAULT 0,
     webhook_url TEXT,
-    created_at TEXT DEFAULT (datetime('now', 'utc')),
-    updated_at TEXT DEFAULT (datetime('now', 'utc'))
+    created_at TEXT DEFAULT (datetime('now')),
+    updated_at TEXT DEFAULT (datetime('now'))
 );
 """
